@@ -67,6 +67,9 @@ for (p, k), r in sorted(res.items()):
     }
     if old.get('history'):
         meta['history'] = old['history']
+    for k in ('also_detected_by', 'also_detected_how'):
+        if old.get(k):
+            meta[k] = old[k]
     if old.get('check_result') and old['check_result'].get('detected') != meta['check_result']['detected']:
         meta.setdefault('history', []).append({'earlier_check_result': old['check_result']})
     json.dump(meta, open(os.path.join(dst, 'meta.json'), 'w'), indent=1)
